@@ -48,6 +48,16 @@ func ruleR29(c *Ctx) {
 		if !onlyCollation {
 			props = append(props, "C16")
 		}
+		// state that a sequence closure keeps outside itself also breaks re-iteration (C14)
+		for x := u; x != nil; x = x.Parent {
+			if x.Lit != nil {
+				for _, sl := range c.seqLiterals() {
+					if sl == x {
+						props = append(props, "C14")
+					}
+				}
+			}
+		}
 		fl := c.e.flow(u)
 		isCodecRecv := func(v *types.Var) bool {
 			// receiver (or variable) of a codec type: the named scratch exception
